@@ -63,7 +63,7 @@ ENUM_CASTS = ['ClipType', 'FillRule', 'JoinType', 'EndType', 'PathType']
 
 REF_ARGS = {'Clipper64_Execute': [3, 4], 'ClipperD_Execute': [3, 4], 'ClipperOffset_Execute': [2],
             'CreateCPolyTree64': [0], 'CreateCPolyTreeD': [0], 'CheckPrecisionRange': [0, 1], 'ScalePaths': [2], 'ScalePath': [2],
-            'BuildPaths64': [0, 1], 'BuildPathsD': [0, 1], 'BuildTree64': [0, 1], 'BuildTreeD': [0, 1]}
+            'BuildPaths64': [1, 2], 'BuildPathsD': [1, 2], 'BuildTree64': [1, 2], 'BuildTreeD': [1, 2]}
 
 
 def split_args(s):
@@ -95,12 +95,12 @@ def calltrace(t):
     for ty in OBJ_TYPES + VAL_TYPES:
         for m in re.finditer(r'\b(?:const\s+)?' + ty + r'\s*[&*]?\s*(\w+)\s*(?=[,)])', head):
             types[m.group(1)] = ty
-    for ty in OBJ_TYPES:
-        # object passed by (non-const) reference -> pointer parameter
+    for ty in OBJ_TYPES + VAL_TYPES:
+        # object / container passed by non-const reference -> pointer parameter
         def pp(m):
-            ptr_params.add(m.group(1))
-            return ty + '* ' + m.group(1)
-        head = re.sub(r'\b' + ty + r'\s*&\s*(\w+)\b(?=\s*[,)])', pp, head)
+            ptr_params.add(m.group(2))
+            return m.group(1) + ty + '* ' + m.group(2)
+        head = re.sub(r'((?:^|[,(])\s*)' + ty + r'\s*&\s*(\w+)\b(?=\s*[,)])', pp, head)
     # declarations
     def decl(m):
         nonlocal n
@@ -147,6 +147,8 @@ def calltrace(t):
         body, k = re.subn(V + r'\s*\.\s*empty\s*\(\s*\)', '(' + name + '.size == 0)', body)
         n += k
         if name in ptr_params:
+            body, k = re.subn(r'&\s*' + name + r'\b', name, body)
+            n += k
             body, k = re.subn(V + r'\s*\.\s*(\w+)\s*\(\s*\)', ty + r'_\1(' + name + ')', body)
             n += k
             body, k = re.subn(V + r'\s*\.\s*(\w+)\s*\(', ty + r'_\1(' + name + ', ', body)
@@ -194,11 +196,13 @@ def floatops(t):
     n = 0
     body_start = t.index('{')
     head, body = t[:body_start], t[body_start:]
-    body, k = re.subn(r'\b1(?:\.0)?\s*/\s*(\w+)\b', r'vf_fdiv(1.0, \1)', body)
+    body, k = re.subn(r'\b1(?:\.0)?\s*/\s*((?:\w+->)?\w+)\b', r'vf_fdiv(1.0, \1)', body)
     n += k
-    body, k = re.subn(r'(?<![\w.)\]])(\w+)\s*\*\s*(\w+)\b(?!\s*[(\[.])', r'vf_fmul(\1, \2)', body)
+    body, k = re.subn(r'(?<![\w.)\]>])((?:\w+->)?\w+)\s*\*\s*((?:\w+->)?\w+)\b(?!\s*[(\[.]|->)', r'vf_fmul(\1, \2)', body)
     n += k
     body, k = re.subn(r'\bpow\s*\(', 'vf_pow(', body)
+    n += k
+    body, k = re.subn(r'\bilogb\s*\(', 'vf_ilogb(', body)
     n += k
     body, k = re.subn(r'\blog10\s*\(', 'vf_log10(', body)
     n += k
